@@ -9,6 +9,16 @@ NOTE = ("Trusted base: clang 14 front end + clang::CFG, tools/xzfacts.cc, sa/*.p
         "of the property is NOT decided (see DESIGN.md section 4).")
 
 CLAIMED = {
+ "C09": dict(
+  text="Must-pass (edge cut) rules on the resume-aware product graphs of the container decoders: every allocating call "
+       "for a new Block / Index / member (block decoder init, filter init, index prealloc/append, worker preparation) is "
+       "preceded on all paths by the usage > limit comparison, threaded mode is chosen only within memlimit_threading, and "
+       "LZMA_MEMLIMIT_ERROR is returned only in the restartable state; the seven memconfig functions write both outputs on "
+       "every successful path and store a new limit only after the non-zero and not-below-usage tests; inits store max(1, "
+       "limit); filter tables' memusage column; xz returns from coder_set_compression_settings only with usage <= limit or via "
+       "the documented soft-limit escape. That estimates bound real allocations is NOT decided.",
+  technique="must-pass-through (edge cut) on finite-domain product graphs, table joins, dominance rules",
+  ref="4/C09"),
  "C04": dict(
   text="Structural robustness clauses for input-driven code: the bounds fact pos < size is available (must-dataflow on the "
        "path-sensitive product graph, so disjunctive loop guards keyed on the coder state are exact) at every in[pos] access of "
